@@ -87,4 +87,934 @@ theorem applyAll_append {σ : Type} (step : Call → σ → Payload → M (σ ×
         | error e => rfl
         | ok r2 => simp [bind_ok, pure_eq_ok]
 
+
+/-! ### shapes: the last statement of a generated body -/
+
+/-- everything of `bodyOf s` except its last statement -/
+def bodyPre (s : Shape) : List Stmt :=
+  s.imports.map (fun i => Stmt.simple (.importFrom i)) ++ opStmts s ++
+    [.simple (.annAssign (.name s.varsVar) s.varsAnn (some s.variables))] ++
+    (match s.tail with
+     | .call aw r d =>
+       [.simple (.assign r (if aw then .await (execCall "execute" s) else execCall "execute" s)),
+        .simple (.assign d (.call (.attr (.name "self") "get_data") [.name r] [] []))]
+     | .sub _ _ _ => [])
+
+def lastStmt (s : Shape) : Stmt :=
+  match s.tail with
+  | .call _ _ d => .simple (.ret (some (projExpr s.retClass d s.proj)))
+  | .sub d l o => .asyncFor (.name d) (execCall "execute_ws" s) [.expr (.yield (projExpr s.retClass d s.proj))] l o
+
+theorem bodyOf_eq (s : Shape) : bodyOf s = bodyPre s ++ [lastStmt s] := by
+  unfold bodyOf bodyPre lastStmt tailStmts
+  cases s.tail <;> simp [List.append_assoc]
+
+theorem bodyOf_getLast (s : Shape) : (bodyOf s).getLast? = some (lastStmt s) := by
+  rw [bodyOf_eq]; simp
+
+theorem bodyOf_dropLast (s : Shape) : (bodyOf s).dropLast = bodyPre s := by
+  rw [bodyOf_eq]; simp
+
+theorem projExpr_snoc (c d : String) (fs : List String) (f : String) :
+    projExpr c d (fs ++ [f]) = .attr (projExpr c d fs) f := by
+  simp [projExpr, List.foldl_append]
+
+theorem execCall_proj (callee : String) (s : Shape) (p : List String) :
+    execCall callee { s with proj := p } = execCall callee s := rfl
+
+theorem bodyPre_proj (s : Shape) (p : List String) : bodyPre { s with proj := p } = bodyPre s := by
+  unfold bodyPre opStmts
+  cases h : s.tail <;> simp [h, execCall, Shape.queryName]
+
+
+/-! ### ShorterResults on a method of the generated shape -/
+
+/-- the body ShorterResults leaves behind: one more attribute behind `model_validate`; for a
+    subscription the rebuilt `async for` has a bare `Expr` body and no `orelse` -/
+def shorterShape (s : Shape) (f : String) : Shape :=
+  { s with proj := s.proj ++ [f],
+           tail := match s.tail with
+             | .call aw r d => .call aw r d
+             | .sub d _ _ => .sub d false 0 }
+
+theorem shorterShape_body_call (s : Shape) (f : String) (aw : Bool) (r d : String) (ht : s.tail = .call aw r d) :
+    bodyOf (shorterShape s f) = bodyPre s ++ [.simple (.ret (some (.attr (projExpr s.retClass d s.proj) f)))] := by
+  rw [bodyOf_eq]
+  have h1 : bodyPre (shorterShape s f) = bodyPre s := by
+    unfold shorterShape bodyPre opStmts
+    simp [ht, execCall, Shape.queryName]
+  have h2 : lastStmt (shorterShape s f) = .simple (.ret (some (.attr (projExpr s.retClass d s.proj) f))) := by
+    unfold shorterShape lastStmt
+    simp [ht, projExpr_snoc]
+  rw [h1, h2]
+
+theorem shorterShape_body_sub (s : Shape) (f : String) (d : String) (l : Bool) (o : Nat) (ht : s.tail = .sub d l o) :
+    bodyOf (shorterShape s f) = bodyPre s ++
+      [.asyncFor (.name d) (execCall "execute_ws" s) [.expr (.yield (.attr (projExpr s.retClass d s.proj) f))] false 0] := by
+  rw [bodyOf_eq]
+  have h1 : bodyPre (shorterShape s f) = bodyPre s := by
+    unfold shorterShape bodyPre opStmts
+    simp [ht, execCall, Shape.queryName]
+  have h2 : lastStmt (shorterShape s f) =
+      .asyncFor (.name d) (execCall "execute_ws" s) [.expr (.yield (.attr (projExpr s.retClass d s.proj) f))] false 0 := by
+    unfold shorterShape lastStmt
+    simp [ht, projExpr_snoc, execCall, Shape.queryName]
+  rw [h1, h2]
+
+/-- query / mutation methods -/
+theorem shorter_call (st : ShorterState) (m : Method) (s : Shape) (aw : Bool) (r d cls : String)
+    (hb : m.body = bodyOf s) (ht : s.tail = .call aw r d) (hr : m.returns = some (.name cls)) :
+    shorterModifyMethod st m =
+      (nodeAndClass st.classDict cls >>= fun x =>
+        match x with
+        | none => pure (st, m)
+        | some (node, classes, f) =>
+          pure (shorterUpdateImports st m.name classes,
+            { m with returns := some node, body := bodyOf (shorterShape s f) })) := by
+  unfold shorterModifyMethod
+  rw [hb, bodyOf_getLast]
+  simp only [lastStmt, ht]
+  unfold shorterQueryMutation
+  simp only [hr]
+  cases hn : nodeAndClass st.classDict cls with
+  | error e => rfl
+  | ok x =>
+    cases x with
+    | none => rfl
+    | some t =>
+      obtain ⟨node, classes, f⟩ := t
+      simp only [bind_ok, pure_eq_ok]
+      rw [shorterShape_body_call s f aw r d ht, hb, bodyOf_dropLast]
+
+/-- subscription methods (the `async for` as client.py builds it: a list body) -/
+theorem shorter_sub (st : ShorterState) (m : Method) (s : Shape) (d cls : String) (o : Nat) (a : Ex)
+    (hb : m.body = bodyOf s) (ht : s.tail = .sub d true o) (hr : m.returns = some (.sub a (.name cls))) :
+    shorterModifyMethod st m =
+      (nodeAndClass st.classDict cls >>= fun x =>
+        match x with
+        | none => pure (st, m)
+        | some (node, classes, f) =>
+          pure (shorterUpdateImports st m.name classes,
+            { m with returns := some (.sub (.name "AsyncIterator") node), body := bodyOf (shorterShape s f) })) := by
+  unfold shorterModifyMethod
+  rw [hb, bodyOf_getLast]
+  simp only [lastStmt, ht]
+  unfold shorterSubscription
+  simp only [hr]
+  cases hn : nodeAndClass st.classDict cls with
+  | error e => rfl
+  | ok x =>
+    cases x with
+    | none => rfl
+    | some t =>
+      obtain ⟨node, classes, f⟩ := t
+      simp only [bind_ok, pure_eq_ok, Bool.not_true, Bool.false_eq_true, ↓reduceIte]
+      rw [shorterShape_body_sub s f d true o ht, hb, bodyOf_dropLast]
+
+/-- a return annotation that is not a plain class name (for instance the string constant
+    ClientForwardRefs leaves behind) makes ShorterResults skip the method -/
+theorem shorter_skips_non_name (st : ShorterState) (m : Method) (s : Shape) (aw : Bool) (r d : String)
+    (hb : m.body = bodyOf s) (ht : s.tail = .call aw r d) (hr : ∀ id, m.returns ≠ some (.name id)) :
+    shorterModifyMethod st m = pure (st, m) := by
+  unfold shorterModifyMethod
+  rw [hb, bodyOf_getLast]
+  simp only [lastStmt, ht]
+  unfold shorterQueryMutation
+  split
+  · rename_i id _ h2
+    exact absurd h2 (hr _)
+  · rfl
+
+theorem shorter_skips_non_name_sub (st : ShorterState) (m : Method) (s : Shape) (d : String) (l : Bool) (o : Nat)
+    (hb : m.body = bodyOf s) (ht : s.tail = .sub d l o) (hr : ∀ a id, m.returns ≠ some (.sub a (.name id))) :
+    shorterModifyMethod st m = pure (st, m) := by
+  unfold shorterModifyMethod
+  rw [hb, bodyOf_getLast]
+  simp only [lastStmt, ht]
+  unfold shorterSubscription
+  split
+  · rename_i a id h2
+    exact absurd h2 (hr _ _)
+  · rfl
+
+/-! ### `_return_or_yield_node_and_class`: exactly one field, inherited ones included -/
+
+theorem nodeAndClass_some (dict : List (String × ClassDef)) (cls : String) (node : Ex) (classes : List String) (f : String) :
+    nodeAndClass dict cls = .ok (some (node, classes, f)) ↔
+      ∃ cd ann, alookup cls dict = some cd ∧
+        getAllFields dict (dict.length + 1) cd = .ok [(.name f, ann)] ∧
+        updateNode (ann.size + 1) ann = .ok (node, classes) := by
+  unfold nodeAndClass
+  cases hl : alookup cls dict with
+  | none => simp [pure_eq_ok]
+  | some cd =>
+    simp only [Option.some.injEq, exists_and_left, exists_eq_left']
+    cases hg : getAllFields dict (dict.length + 1) cd with
+    | error e => simp [bind_error]
+    | ok fields =>
+      simp only [bind_ok]
+      match fields with
+      | [] => simp [pure_eq_ok]
+      | [(t, ann)] =>
+        cases t <;> simp [pure_eq_ok]
+        rename_i id
+        cases hu : updateNode (ann.size + 1) ann with
+        | error e => simp [bind_error]; intro _ h; rw [hu] at h; cases h
+        | ok r =>
+          obtain ⟨n', c'⟩ := r
+          simp [bind_ok, pure_eq_ok]
+          constructor
+          · rintro ⟨h1, h2, h3⟩
+            exact ⟨ann, ⟨h3, rfl⟩, by rw [hu, h1, h2]⟩
+          · rintro ⟨x, ⟨h3, h4⟩, h5⟩
+            subst h4
+            rw [hu] at h5
+            simp at h5
+            exact ⟨h5.1, h5.2, h3⟩
+      | _ :: _ :: _ => simp [pure_eq_ok]
+
+
+/-! ### semantics of the projection -/
+
+theorem request_shorterShape (pkg : Pkg) (s : Shape) (f : String) : request pkg (shorterShape s f) = request pkg s := by
+  unfold request shorterShape constValue resolveRuntime
+  cases s.op <;> rfl
+
+theorem respond_shorterShape {PyV : Type} (validate : String × String → J → Except String PyV)
+    (getattr : String → PyV → PyV) (pkg : Pkg) (s : Shape) (f : String) (d : J) :
+    respond validate getattr pkg (shorterShape s f) d = (respond validate getattr pkg s d).map (getattr f) := by
+  unfold respond shorterShape resolveRuntime
+  simp only
+  cases alookup s.retClass (importBindings s.imports) with
+  | some cls =>
+    simp only
+    cases validate cls d with
+    | ok o => simp [Outcome.map, List.foldl_append]
+    | error e => simp [Outcome.map]
+  | none =>
+    simp only
+    cases alookup s.retClass (importBindings (topImports pkg.client)) with
+    | some cls =>
+      simp only
+      cases validate cls d with
+      | ok o => simp [Outcome.map, List.foldl_append]
+      | error e => simp [Outcome.map]
+    | none => simp [Outcome.map]
+
+/-! ### ExtractOperations on a method of the generated shape -/
+
+theorem replaceQueryKw_exec (v : Ex) (q o vv kw : Ex) :
+    replaceQueryKw v [some "query", some "operation_name", some "variables", none] [q, o, vv, kw] = [v, o, vv, kw] := by
+  simp [replaceQueryKw]
+
+/-- `generate_client_method` of ExtractOperations on the method client.py built (no in-body imports
+    yet, the operation inlined): the `query = gql(...)` statement is dropped and `query=` refers to
+    the constant of this operation; nothing else changes. -/
+theorem extract_method (st : ExtractState) (c : Call) (m : Method) (s : Shape) (q : String) (ls : List String)
+    (op v : String)
+    (hb : m.body = bodyOf s) (hi : s.imports = []) (ho : s.op = .inline q ls)
+    (hn : c.opName = some op) (hv : alookup op st.vars = some v)
+    (hk : match s.tail with
+          | .call aw _ _ => c.opKind ≠ some "subscription" ∧ st.asyncClient = aw
+          | .sub _ _ _ => c.opKind = some "subscription") :
+    extractClientMethod st c m = .ok { m with body := bodyOf { s with op := .const v } } := by
+  unfold extractClientMethod
+  have hbody : m.body = .simple (.assign q (.call (.name "gql") [.strs ls] [] [])) ::
+      .simple (.annAssign (.name s.varsVar) s.varsAnn (some s.variables)) :: tailStmts s := by
+    rw [hb]; unfold bodyOf opStmts; simp [hi, ho]
+  have hbody' : bodyOf { s with op := .const v } =
+      .simple (.annAssign (.name s.varsVar) s.varsAnn (some s.variables)) :: tailStmts { s with op := .const v } := by
+    unfold bodyOf opStmts; simp [hi]
+  rw [hbody, hbody']
+  cases ht : s.tail with
+  | call aw r d =>
+    rw [ht] at hk
+    obtain ⟨hk1, hk2⟩ := hk
+    cases aw with
+    | true =>
+      simp [tailStmts, ht, execCall, Shape.queryName, ho, hn, hv, hk2, List.drop, replaceQueryKw, bind, Except.bind, pure, Except.pure]
+    | false =>
+      simp [tailStmts, ht, execCall, Shape.queryName, ho, hn, hv, hk2, List.drop, replaceQueryKw, bind, Except.bind, pure, Except.pure]
+  | sub d l o =>
+    rw [ht] at hk
+    simp [tailStmts, ht, execCall, Shape.queryName, ho, hn, hv, hk, List.drop, replaceQueryKw, bind, Except.bind, pure, Except.pure, List.set]
+
+
+/-! ### association lists -/
+
+theorem alookup_aset_self {β} (k : String) (v : β) (d : List (String × β)) : alookup k (aset k v d) = some v := by
+  induction d with
+  | nil => simp [aset, alookup]
+  | cons kv rest ih =>
+    obtain ⟨k', v'⟩ := kv
+    by_cases h : k' = k
+    · simp [aset, alookup, h]
+    · simp [aset, alookup, h, ih]
+
+theorem alookup_aset_other {β} (k k' : String) (v : β) (d : List (String × β)) (h : k ≠ k') :
+    alookup k' (aset k v d) = alookup k' d := by
+  induction d with
+  | nil => simp [aset, alookup, h]
+  | cons kv rest ih =>
+    obtain ⟨k2, v2⟩ := kv
+    by_cases h2 : k2 = k
+    · subst h2; simp [aset, alookup, h]
+    · by_cases h3 : k2 = k'
+      · subst h3; simp [aset, alookup, h2]
+      · simp [aset, alookup, h2, h3, ih]
+
+theorem mem_of_alookup {β} (k : String) (v : β) (d : List (String × β)) (h : alookup k d = some v) : (k, v) ∈ d := by
+  induction d with
+  | nil => simp [alookup] at h
+  | cons kv rest ih =>
+    obtain ⟨k', v'⟩ := kv
+    by_cases hk : k' = k
+    · simp [alookup, hk] at h; simp [hk, h]
+    · simp [alookup, hk] at h; simp [ih h]
+
+theorem alookup_of_mem_nodup {β} (k : String) (v : β) (d : List (String × β)) (hm : (k, v) ∈ d)
+    (hn : (d.map Prod.fst).Nodup) : alookup k d = some v := by
+  induction d with
+  | nil => simp at hm
+  | cons kv rest ih =>
+    obtain ⟨k', v'⟩ := kv
+    simp only [List.map_cons, List.nodup_cons] at hn
+    rcases List.mem_cons.mp hm with h | h
+    · cases h; simp [alookup]
+    · by_cases hk : k' = k
+      · subst hk
+        exact absurd (List.mem_map.mpr ⟨(k', v), h, rfl⟩) hn.1
+      · simp [alookup, hk, ih h hn.2]
+
+/-! ### ExtractOperations: bookkeeping and the operations module -/
+
+theorem extract_opStr (st : ExtractState) (c : Call) (s op snake : String)
+    (hn : c.opName = some op) (hs : c.opSnake = some snake) :
+    extractOperationStr st c s =
+      .ok { st with gqls := aset op s st.gqls, vars := aset op (gqlVarName snake) st.vars } := by
+  unfold extractOperationStr; simp [hn, hs, pure_eq_ok]
+
+theorem mapM_ok_mem {α β} (f : α → M β) : ∀ (xs : List α) (ys : List β), xs.mapM f = .ok ys →
+    ∀ x ∈ xs, ∃ y ∈ ys, f x = .ok y := by
+  intro xs
+  induction xs with
+  | nil => intro ys _ x hx; simp at hx
+  | cons a as ih =>
+    intro ys h x hx
+    rw [List.mapM_cons] at h
+    cases hfa : f a with
+    | error e => rw [hfa] at h; cases h
+    | ok b =>
+      rw [hfa] at h
+      simp only [bind_ok] at h
+      cases hrest : as.mapM f with
+      | error e => rw [hrest] at h; cases h
+      | ok bs =>
+        rw [hrest] at h
+        simp only [bind_ok, pure_eq_ok, Except.ok.injEq] at h
+        subst h
+        rcases List.mem_cons.mp hx with rfl | hx'
+        · exact ⟨b, by simp, hfa⟩
+        · obtain ⟨y, hy, hfy⟩ := ih bs hrest x hx'
+          exact ⟨y, by simp [hy], hfy⟩
+
+/-- every recorded operation ends up in the written module as `NAME = <the lines of its string>` -/
+theorem extract_opsFile_binds (st : ExtractState) (f : OpsFile) (h : extractOpsFile st = .ok f)
+    (op g : String) (hg : (op, g) ∈ st.gqls) :
+    ∃ v, alookup op st.vars = some v ∧ (v, pyLines g) ∈ f.assigns := by
+  unfold extractOpsFile at h
+  simp only [bind, Except.bind] at h
+  split at h
+  · cases h
+  · rename_i assigns hm
+    simp only [pure, Except.pure, Except.ok.injEq] at h
+    subst h
+    obtain ⟨y, hy, hfy⟩ := mapM_ok_mem _ _ _ hm (op, g) hg
+    simp only at hfy
+    cases hv : alookup op st.vars with
+    | none => rw [hv] at hfy; cases hfy
+    | some v =>
+      rw [hv] at hfy
+      simp only [pure, Except.pure, Except.ok.injEq] at hfy
+      exact ⟨v, rfl, by rw [hfy]; exact hy⟩
+
+/-! ### ClientForwardRefs on a method of the generated shape -/
+
+theorem fwdImportClass_last (s : Shape) (hp : s.proj.length ≤ 1) : fwdImportClass (lastStmt s) = some s.retClass := by
+  unfold lastStmt
+  match hproj : s.proj with
+  | [] => cases s.tail <;> simp [fwdImportClass, projExpr, fwdCallOf, fwdClassOfCall]
+  | [f] => cases s.tail <;> simp [fwdImportClass, projExpr, fwdCallOf, fwdClassOfCall]
+  | _ :: _ :: _ => rw [hproj] at hp; simp at hp
+
+def withImport (s : Shape) (i : ImportFrom) : Shape := { s with imports := i :: s.imports }
+
+theorem bodyOf_withImport (s : Shape) (i : ImportFrom) :
+    bodyOf (withImport s i) = .simple (.importFrom i) :: bodyOf s := by
+  unfold bodyOf withImport opStmts tailStmts
+  cases h1 : s.op <;> cases h2 : s.tail <;> simp [execCall, Shape.queryName, h1]
+
+/-- the rewritten signature of a method (string constants for locally imported classes) -/
+def fwdSignature (st : FwdState) (m : Method) : List (String × Option Ex) × Option Ex × List String :=
+  let r1 := fwdRewriteArgs st.importedClasses m.args st.inputAndReturnTypes
+  match m.returns with
+  | some r => let x := toConst st.importedClasses r r1.2; (r1.1, some x.1, x.2)
+  | none => (r1.1, none, r1.2)
+
+/-- `generate_client_module` of ClientForwardRefs on one method of the generated shape: the
+    signature is rewritten, and the validated class is imported at the top of the body FROM THE
+    MODULE RECORDED FOR IT (level 0, dotted module text) — nothing else in the body changes. -/
+theorem fwd_method (st : FwdState) (m : Method) (s : Shape) (src : String)
+    (hb : m.body = bodyOf s) (hp : s.proj.length ≤ 1) (hc : alookup s.retClass st.importedClasses = some src) :
+    fwdMethod st m = .ok
+      ({ st with inputAndReturnTypes := (fwdSignature st m).2.2,
+                 importedInMethod := sadd s.retClass st.importedInMethod },
+       { m with args := (fwdSignature st m).1, returns := (fwdSignature st m).2.1,
+                body := bodyOf (withImport s { module := some src, names := [(s.retClass, none)], level := 0 }) }) := by
+  unfold fwdMethod fwdSignature
+  simp only [bind_ok, pure_eq_ok]
+  cases hr : m.returns with
+  | none =>
+    simp only [hb, bodyOf_getLast, fwdImportClass_last s hp, hc, bodyOf_withImport]
+  | some r =>
+    simp only [hb, bodyOf_getLast, fwdImportClass_last s hp, hc, bodyOf_withImport]
+
+/-- a validated class that was never imported by a local import: KeyError (finding C15-F5 is the
+    instance `self.get_data(...)`, where the "class" is `self`) -/
+theorem fwd_method_keyerror (st : FwdState) (m : Method) (last : Stmt) (cls : String)
+    (hl : m.body.getLast? = some last) (hi : fwdImportClass last = some cls)
+    (hc : alookup cls st.importedClasses = none) : fwdMethod st m = .error "KeyError" := by
+  unfold fwdMethod
+  simp only [bind_ok, pure_eq_ok]
+  cases hr : m.returns <;> simp [hl, hi, hc, throw, throwThe, MonadExceptOf.throw]
+
+
+/-! ### a plugin whose hooks all return their argument, anywhere in the list -/
+
+theorem applyAll_insert {σ : Type} (step : Call → σ → Payload → M (σ × Payload)) (idp : σ)
+    (hid : ∀ c x, step c idp x = .ok (idp, x)) (c : Call) (a b : List σ) (x : Payload) :
+    applyAll step c (a ++ idp :: b) x =
+      (applyAll step c a x >>= fun ra => applyAll step c b ra.2 >>= fun rb => pure (ra.1 ++ idp :: rb.1, rb.2)) := by
+  rw [applyAll_append]
+  cases applyAll step c a x with
+  | error e => rfl
+  | ok ra =>
+    simp only [bind_ok]
+    rw [applyAll_cons, hid]
+    simp only [bind_ok]
+    cases applyAll step c b ra.2 with
+    | error e => rfl
+    | ok rb => rfl
+
+/-- plugin lists that differ by one inserted inert plugin -/
+def InsertedAt {σ : Type} (idp : σ) (l1 l2 : List σ) : Prop := ∃ a b, l1 = a ++ idp :: b ∧ l2 = a ++ b
+
+theorem applyAll_inserted {σ : Type} (step : Call → σ → Payload → M (σ × Payload)) (idp : σ)
+    (hid : ∀ c x, step c idp x = .ok (idp, x)) (c : Call) (l1 l2 : List σ) (x : Payload)
+    (h : InsertedAt idp l1 l2) :
+    (∃ e, applyAll step c l1 x = .error e ∧ applyAll step c l2 x = .error e) ∨
+    (∃ l1' l2' y, applyAll step c l1 x = .ok (l1', y) ∧ applyAll step c l2 x = .ok (l2', y) ∧ InsertedAt idp l1' l2') := by
+  obtain ⟨a, b, rfl, rfl⟩ := h
+  rw [applyAll_insert step idp hid, applyAll_append]
+  cases applyAll step c a x with
+  | error e => exact .inl ⟨e, rfl, rfl⟩
+  | ok ra =>
+    simp only [bind_ok]
+    cases applyAll step c b ra.2 with
+    | error e => exact .inl ⟨e, rfl, rfl⟩
+    | ok rb => exact .inr ⟨_, _, _, rfl, rfl, ra.1, rb.1, rfl, rfl⟩
+
+theorem identity_step (c : Call) (x : Payload) : PState.step c .identity x = .ok (.identity, x) := rfl
+
+/-- pipeline states that differ only by an inserted identity plugin -/
+def PipeRel (p1 p2 : PipeState) : Prop :=
+  InsertedAt PState.identity p1.plugins p2.plugins ∧ p1.methodsOut = p2.methodsOut ∧ p1.importsOut = p2.importsOut ∧
+  p1.gqlOut = p2.gqlOut ∧ p1.classOut = p2.classOut ∧ p1.initImports = p2.initImports ∧ p1.trace = p2.trace
+
+theorem inputFor_rel (p1 p2 : PipeState) (e : Event) (h : PipeRel p1 p2) : inputFor p1 e = inputFor p2 e := by
+  obtain ⟨_, h1, h2, h3, h4, h5, _⟩ := h
+  unfold inputFor
+  rw [h1, h2, h3, h4, h5]
+
+theorem record_rel (p1 p2 : PipeState) (c : Call) (y : Payload) (h : PipeRel p1 p2) :
+    PipeRel (record p1 c y) (record p2 c y) := by
+  obtain ⟨h0, h1, h2, h3, h4, h5, h6⟩ := h
+  unfold record
+  split
+  · exact ⟨h0, by simp [h1], h2, h3, h4, h5, h6⟩
+  · rename_i i _
+    by_cases hk : keepClientImport c i = true
+    · simp only [hk, ↓reduceIte]; exact ⟨h0, h1, by simp [h2], h3, h4, h5, h6⟩
+    · simp only [hk]; exact ⟨h0, h1, h2, h3, h4, h5, h6⟩
+  · exact ⟨h0, h1, h2, by simp, h4, h5, h6⟩
+  · exact ⟨h0, h1, h2, h3, by simp, h5, h6⟩
+  · exact ⟨h0, h1, h2, h3, h4, by simp [h5], h6⟩
+  · exact ⟨h0, h1, h2, h3, h4, h5, h6⟩
+
+theorem stepEvent_rel (p1 p2 : PipeState) (e : Event) (h : PipeRel p1 p2) :
+    (∃ err, stepEvent p1 e = .error err ∧ stepEvent p2 e = .error err) ∨
+    (∃ q1 q2, stepEvent p1 e = .ok q1 ∧ stepEvent p2 e = .ok q2 ∧ PipeRel q1 q2) := by
+  unfold stepEvent manager
+  rw [inputFor_rel p1 p2 e h]
+  dsimp only
+  have h' := h
+  obtain ⟨h0, h1, h2, h3, h4, h5, h6⟩ := h
+  rcases applyAll_inserted PState.step .identity identity_step e.call p1.plugins p2.plugins (inputFor p2 e) h0 with
+    ⟨err, e1, e2⟩ | ⟨l1, l2, y, e1, e2, hins⟩
+  · left; exact ⟨err, by rw [e1]; rfl, by rw [e2]; rfl⟩
+  · right
+    rw [e1, e2]
+    simp only [bind_ok, pure_eq_ok]
+    refine ⟨_, _, rfl, rfl, ?_⟩
+    apply record_rel
+    exact ⟨hins, h1, h2, h3, h4, h5, by simp [h6]⟩
+
+theorem runPipeline_rel (evs : List Event) : ∀ (p1 p2 : PipeState), PipeRel p1 p2 →
+    (runPipeline p1 evs).2 = (runPipeline p2 evs).2 ∧ PipeRel (runPipeline p1 evs).1 (runPipeline p2 evs).1 := by
+  induction evs with
+  | nil => intro p1 p2 h; exact ⟨rfl, h⟩
+  | cons e rest ih =>
+    intro p1 p2 h
+    unfold runPipeline
+    rcases stepEvent_rel p1 p2 e h with ⟨err, e1, e2⟩ | ⟨q1, q2, e1, e2, hq⟩
+    · rw [e1, e2]; exact ⟨rfl, h⟩
+    · rw [e1, e2]; exact ih q1 q2 hq
+
+
+/-! ### NoReimports -/
+
+theorem noReimports_other_hooks (c : Call) (x : Payload) (h : c.hook ≠ "generate_init_module") :
+    noReimportsStep c x = x := by
+  unfold noReimportsStep
+  split
+  · rename_i h1; exact absurd h1 h
+  · rfl
+
+/-- once `__init__` is empty no bundled plugin puts anything back -/
+theorem empty_init_stays_empty (c : Call) (hc : c.hook = "generate_init_module") (p p' : PState) (y : Payload)
+    (h : PState.step c p (.module { body := [] }) = .ok (p', y)) : y = .module { body := [] } := by
+  cases p with
+  | shorter st =>
+    simp only [PState.step, shorterStep, hc] at h
+    simp [bind, Except.bind, pure, Except.pure] at h
+    exact h.2.symm
+  | extract st =>
+    simp only [PState.step, extractStep, hc, extractInitModule] at h
+    simp only [List.isEmpty_nil, ↓reduceIte, bind, Except.bind, pure, Except.pure] at h
+    cases hf : extractOpsFile st with
+    | error e => simp [hf] at h
+    | ok f => simp [hf] at h; exact h.2.symm
+  | fwd st =>
+    simp only [PState.step, fwdStep, hc] at h
+    simp [bind, Except.bind, pure, Except.pure] at h
+    exact h.2.symm
+  | noReimports =>
+    simp only [PState.step, noReimportsStep, hc, pure, Except.pure, Except.ok.injEq, Prod.mk.injEq] at h
+    exact h.2.symm
+  | identity =>
+    simp only [PState.step, pure, Except.pure, Except.ok.injEq, Prod.mk.injEq] at h
+    exact h.2.symm
+
+theorem empty_init_through_list (c : Call) (hc : c.hook = "generate_init_module") :
+    ∀ (ps ps' : List PState) (y : Payload),
+      applyAll PState.step c ps (.module { body := [] }) = .ok (ps', y) → y = .module { body := [] } := by
+  intro ps
+  induction ps with
+  | nil => intro ps' y h; simp [applyAll, List.foldlM, pure, Except.pure] at h; exact h.2.symm
+  | cons p rest ih =>
+    intro ps' y h
+    rw [applyAll_cons] at h
+    cases hs : PState.step c p (.module { body := [] }) with
+    | error e => rw [hs] at h; cases h
+    | ok r =>
+      rw [hs] at h
+      simp only [bind_ok] at h
+      have hy := empty_init_stays_empty c hc p r.1 r.2 (by rw [hs])
+      rw [hy] at h
+      cases hr : applyAll PState.step c rest (.module { body := [] }) with
+      | error e => rw [hr] at h; cases h
+      | ok r' =>
+        rw [hr] at h
+        simp only [bind_ok, pure_eq_ok, Except.ok.injEq, Prod.mk.injEq] at h
+        rw [← h.2]
+        exact ih r'.1 r'.2 (by rw [hr])
+
+/-! ### ClientForwardRefs: annotations keep their meaning -/
+
+mutual
+  /-- read a string annotation as the name it quotes (where `_update_name_to_constant` can write one) -/
+  def unconst : Ex → Ex
+    | .const v => .name v
+    | .sub v s => .sub v (unconst s)
+    | .tuple es => .tuple (unconstList es)
+    | e => e
+  def unconstList : List Ex → List Ex
+    | [] => []
+    | e :: es => unconst e :: unconstList es
+end
+
+mutual
+  theorem toConst_unconst (cls : List (String × String)) : ∀ (e : Ex) (s : List String),
+      unconst (toConst cls e s).1 = unconst e
+    | .name id, s => by
+      unfold toConst
+      split <;> simp [unconst]
+    | .sub v sl, s => by
+      simp only [toConst, unconst]
+      rw [toConst_unconst cls sl s]
+    | .tuple es, s => by
+      simp only [toConst, unconst]
+      rw [toConstList_unconst cls es s]
+    | .const _, _ => by simp [toConst]
+    | .attr _ _, _ => by simp [toConst]
+    | .call _ _ _ _, _ => by simp [toConst]
+    | .await _, _ => by simp [toConst]
+    | .yield _, _ => by simp [toConst]
+    | .yieldNone, _ => by simp [toConst]
+    | .strs _, _ => by simp [toConst]
+    | .other _ _, _ => by simp [toConst]
+  theorem toConstList_unconst (cls : List (String × String)) : ∀ (es : List Ex) (s : List String),
+      unconstList (toConstList cls es s).1 = unconstList es
+    | [], s => by simp [toConstList, unconstList]
+    | e :: es, s => by
+      simp only [toConstList, unconstList]
+      rw [toConst_unconst cls e s, toConstList_unconst cls es _]
+end
+
+theorem mem_sadd (x y : String) (s : List String) : y ∈ sadd x s ↔ y ∈ s ∨ y = x := by
+  unfold sadd
+  split
+  · rename_i h
+    constructor
+    · intro hy; exact .inl hy
+    · rintro (hy | rfl)
+      · exact hy
+      · exact List.contains_iff_mem.mp h |> fun h' => by simpa using h'
+  · simp
+
+mutual
+  /-- every name `_update_name_to_constant` adds to `input_and_return_types` is a locally imported class -/
+  theorem toConst_set (cls : List (String × String)) : ∀ (e : Ex) (s : List String) (n : String),
+      n ∈ (toConst cls e s).2 → n ∈ s ∨ ahas n cls = true
+    | .name id, s, n => by
+      unfold toConst
+      split
+      · rename_i h
+        intro hn
+        rcases (mem_sadd id n s).mp hn with h1 | h1
+        · exact .inl h1
+        · subst h1; exact .inr h
+      · intro hn; exact .inl hn
+    | .sub v sl, s, n => by
+      simp only [toConst]
+      exact toConst_set cls sl s n
+    | .tuple es, s, n => by
+      simp only [toConst]
+      exact toConstList_set cls es s n
+    | .const _, _, _ => by simp [toConst]; exact .inl
+    | .attr _ _, _, _ => by simp [toConst]; exact .inl
+    | .call _ _ _ _, _, _ => by simp [toConst]; exact .inl
+    | .await _, _, _ => by simp [toConst]; exact .inl
+    | .yield _, _, _ => by simp [toConst]; exact .inl
+    | .yieldNone, _, _ => by simp [toConst]; exact .inl
+    | .strs _, _, _ => by simp [toConst]; exact .inl
+    | .other _ _, _, _ => by simp [toConst]; exact .inl
+  theorem toConstList_set (cls : List (String × String)) : ∀ (es : List Ex) (s : List String) (n : String),
+      n ∈ (toConstList cls es s).2 → n ∈ s ∨ ahas n cls = true
+    | [], s, n => by simp [toConstList]; exact .inl
+    | e :: es, s, n => by
+      simp only [toConstList]
+      intro hn
+      rcases toConstList_set cls es _ n hn with h | h
+      · exact toConst_set cls e s n h
+      · exact .inr h
+end
+
+
+/-! ### ClientForwardRefs: what ends up under `if TYPE_CHECKING:` -/
+
+def tcStep (classes : List (String × String)) (acc : List (String × List String)) (cls : String) :
+    M (List (String × List String)) :=
+  match alookup cls classes with
+  | none => throw "KeyError"
+  | some mname => pure (aset mname ((alookup mname acc).getD [] ++ [cls]) acc)
+
+theorem fwdTypeCheckingImports_eq (st : FwdState) :
+    fwdTypeCheckingImports st = st.inputAndReturnTypes.foldlM (tcStep st.importedClasses) [] := rfl
+
+theorem tc_fold (classes : List (String × String)) : ∀ (l : List String) (acc groups : List (String × List String)),
+    l.foldlM (tcStep classes) acc = .ok groups →
+      (∀ src names cls, alookup src acc = some names → cls ∈ names →
+          ∃ names', alookup src groups = some names' ∧ cls ∈ names') ∧
+      (∀ cls ∈ l, ∃ src names, alookup cls classes = some src ∧ alookup src groups = some names ∧ cls ∈ names) := by
+  intro l
+  induction l with
+  | nil =>
+    intro acc groups h
+    simp [List.foldlM, pure, Except.pure] at h
+    subst h
+    exact ⟨fun src names cls h1 h2 => ⟨names, h1, h2⟩, fun cls hc => by simp at hc⟩
+  | cons c rest ih =>
+    intro acc groups h
+    rw [List.foldlM_cons] at h
+    cases hc : alookup c classes with
+    | none => simp [tcStep, hc, bind, Except.bind, throw, throwThe, MonadExceptOf.throw] at h
+    | some mname =>
+      simp only [tcStep, hc, pure_eq_ok, bind_ok] at h
+      obtain ⟨ih1, ih2⟩ := ih _ groups h
+      constructor
+      · intro src names cls h1 h2
+        by_cases hs : mname = src
+        · subst hs
+          apply ih1 mname ((alookup mname acc).getD [] ++ [c]) cls (alookup_aset_self _ _ _)
+          simp [h1, h2]
+        · apply ih1 src names cls _ h2
+          rw [alookup_aset_other mname src _ _ hs]; exact h1
+      · intro cls hcls
+        rcases List.mem_cons.mp hcls with rfl | hr
+        · obtain ⟨names', hn1, hn2⟩ := ih1 mname ((alookup mname acc).getD [] ++ [cls]) cls (alookup_aset_self _ _ _) (by simp)
+          exact ⟨mname, names', hc, hn1, hn2⟩
+        · exact ih2 cls hr
+
+/-- every class quoted in a signature is imported under `if TYPE_CHECKING:` from the module its
+    module-level import named -/
+theorem fwd_typechecking_complete (st : FwdState) (groups : List (String × List String))
+    (h : fwdTypeCheckingImports st = .ok groups) (cls : String) (hc : cls ∈ st.inputAndReturnTypes) :
+    ∃ src names, alookup cls st.importedClasses = some src ∧ alookup src groups = some names ∧ cls ∈ names := by
+  rw [fwdTypeCheckingImports_eq] at h
+  exact (tc_fold st.importedClasses st.inputAndReturnTypes [] groups h).2 cls hc
+
+/-! ### configuration order: ClientForwardRefs before ShorterResults (finding C15-F3) -/
+
+theorem toConst_name_imported (cls : List (String × String)) (id : String) (s : List String) (h : ahas id cls = true) :
+    (toConst cls (.name id) s).1 = .const id := by
+  unfold toConst; simp [h]
+
+/-- what ClientForwardRefs leaves of a query/mutation method makes ShorterResults skip it, whatever
+    ShorterResults knows about the result class -/
+theorem shorter_after_fwd_method (stF : FwdState) (stS : ShorterState) (m : Method) (s : Shape) (aw : Bool)
+    (r d cls src : String)
+    (hb : m.body = bodyOf s) (ht : s.tail = .call aw r d) (hp : s.proj.length ≤ 1)
+    (hr : m.returns = some (.name cls)) (hcls : ahas cls stF.importedClasses = true)
+    (hc : alookup s.retClass stF.importedClasses = some src) :
+    ∃ stF' m', fwdMethod stF m = .ok (stF', m') ∧ shorterModifyMethod stS m' = .ok (stS, m') := by
+  refine ⟨_, _, fwd_method stF m s src hb hp hc, ?_⟩
+  apply shorter_skips_non_name stS _ (withImport s { module := some src, names := [(s.retClass, none)], level := 0 }) aw r d rfl
+  · simp [withImport, ht]
+  · intro id h
+    simp only [fwdSignature, hr] at h
+    rw [toConst_name_imported _ _ _ hcls] at h
+    cases h
+
+
+/-! ### a module stays a module through the plugin manager -/
+
+theorem step_keeps_module (c : Call) (p p' : PState) (m : Module) (y : Payload)
+    (h : PState.step c p (.module m) = .ok (p', y)) : ∃ m', y = .module m' := by
+  cases p with
+  | shorter st =>
+    simp only [PState.step, shorterStep] at h
+    split at h
+    all_goals (try (simp [bind, Except.bind, pure, Except.pure] at h; exact ⟨_, h.2.symm⟩))
+    · rename_i hm
+      cases hm
+      cases hx : shorterClientModule st m with
+      | error e => simp [hx, bind, Except.bind] at h
+      | ok r => simp [hx, bind, Except.bind, pure, Except.pure] at h; exact ⟨_, h.2.symm⟩
+  | extract st =>
+    simp only [PState.step, extractStep] at h
+    split at h
+    · rename_i hm; cases hm
+    · rename_i hm; cases hm
+    · simp [bind, Except.bind, pure, Except.pure] at h; exact ⟨_, h.2.symm⟩
+    · rename_i hm
+      cases hm
+      cases hx : extractInitModule st m with
+      | error e => simp [hx, bind, Except.bind] at h
+      | ok r => simp [hx, bind, Except.bind, pure, Except.pure] at h; exact ⟨_, h.2.symm⟩
+    · simp [bind, Except.bind, pure, Except.pure] at h; exact ⟨_, h.2.symm⟩
+  | fwd st =>
+    simp only [PState.step, fwdStep] at h
+    split at h
+    · rename_i hm
+      cases hm
+      cases hx : fwdClientModule st m with
+      | error e => simp [hx, bind, Except.bind] at h
+      | ok r => simp [hx, bind, Except.bind, pure, Except.pure] at h; exact ⟨_, h.2.symm⟩
+    · simp [bind, Except.bind, pure, Except.pure] at h; exact ⟨_, h.2.symm⟩
+  | noReimports =>
+    simp only [PState.step, pure, Except.pure, Except.ok.injEq, Prod.mk.injEq] at h
+    rw [← h.2]
+    unfold noReimportsStep
+    split
+    · exact ⟨_, rfl⟩
+    · exact ⟨_, rfl⟩
+  | identity =>
+    simp only [PState.step, pure, Except.pure, Except.ok.injEq, Prod.mk.injEq] at h
+    exact ⟨m, h.2.symm⟩
+
+theorem applyAll_keeps_module (c : Call) : ∀ (ps l : List PState) (m : Module) (y : Payload),
+    applyAll PState.step c ps (.module m) = .ok (l, y) → ∃ m', y = .module m' := by
+  intro ps
+  induction ps with
+  | nil => intro l m y h; simp [applyAll, List.foldlM, pure, Except.pure] at h; exact ⟨m, h.2.symm⟩
+  | cons p rest ih =>
+    intro l m y h
+    rw [applyAll_cons] at h
+    cases hs : PState.step c p (.module m) with
+    | error e => rw [hs] at h; cases h
+    | ok r =>
+      rw [hs] at h
+      simp only [bind_ok] at h
+      obtain ⟨m1, hm1⟩ := step_keeps_module c p r.1 m r.2 (by rw [hs])
+      rw [hm1] at h
+      cases hr : applyAll PState.step c rest (.module m1) with
+      | error e => rw [hr] at h; cases h
+      | ok r' =>
+        rw [hr] at h
+        simp only [bind_ok, pure_eq_ok, Except.ok.injEq, Prod.mk.injEq] at h
+        rw [← h.2]
+        exact ih r'.1 m1 r'.2 (by rw [hr])
+
+
+/-! ### configurations made of the identity plugin and NoReimports only -/
+
+def Inert (ps : List PState) : Prop := ∀ p ∈ ps, p = PState.identity ∨ p = PState.noReimports
+
+theorem inert_manager (c : Call) : ∀ (ps : List PState), Inert ps → ∀ (x : Payload),
+    ∃ y, applyAll PState.step c ps x = .ok (ps, y) ∧ (c.hook ≠ "generate_init_module" → y = x) := by
+  intro ps
+  induction ps with
+  | nil => intro _ x; exact ⟨x, rfl, fun _ => rfl⟩
+  | cons p rest ih =>
+    intro hin x
+    have hp := hin p (by simp)
+    have hrest : Inert rest := fun q hq => hin q (by simp [hq])
+    rw [applyAll_cons]
+    rcases hp with rfl | rfl
+    · obtain ⟨y, hy, hy2⟩ := ih hrest x
+      refine ⟨y, ?_, hy2⟩
+      show (Except.ok (PState.identity, x) >>= _) = _
+      simp only [bind_ok, hy, pure_eq_ok]
+    · obtain ⟨y, hy, hy2⟩ := ih hrest (noReimportsStep c x)
+      refine ⟨y, ?_, fun hc => by rw [hy2 hc, noReimports_other_hooks c x hc]⟩
+      show (Except.ok (PState.noReimports, noReimportsStep c x) >>= _) = _
+      simp only [bind_ok, hy, pure_eq_ok]
+
+def FinalRel (p1 p2 : PipeState) : Prop :=
+  ∀ hook, hook ≠ "generate_init_module" → p1.finalOf hook = p2.finalOf hook
+
+def InertRel (p1 p2 : PipeState) : Prop :=
+  Inert p1.plugins ∧ p2.plugins = [] ∧ p1.methodsOut = p2.methodsOut ∧ p1.importsOut = p2.importsOut ∧
+  p1.gqlOut = p2.gqlOut ∧ p1.classOut = p2.classOut ∧ p1.initImports = p2.initImports ∧ FinalRel p1 p2
+
+def finalOfTrace (t : List (Call × Payload × Payload)) (hook : String) : Option Payload :=
+  (t.reverse.find? (fun e => e.1.hook == hook)).map (·.2.2)
+
+theorem finalOf_eq (ps : PipeState) (hook : String) : ps.finalOf hook = finalOfTrace ps.trace hook := rfl
+
+theorem finalOfTrace_snoc (t : List (Call × Payload × Payload)) (c : Call) (x y : Payload) (hook : String) :
+    finalOfTrace (t ++ [(c, x, y)]) hook = if c.hook == hook then some y else finalOfTrace t hook := by
+  unfold finalOfTrace
+  simp only [List.reverse_append, List.reverse_cons, List.reverse_nil, List.nil_append, List.cons_append, List.find?_cons]
+  split <;> simp_all
+
+theorem record_finalOf (ps : PipeState) (c : Call) (y : Payload) (hook : String) :
+    (record ps c y).finalOf hook = ps.finalOf hook := by
+  unfold record PipeState.finalOf
+  split
+  · rfl
+  · split <;> rfl
+  · rfl
+  · rfl
+  · rfl
+  · rfl
+
+theorem record_init (ps : PipeState) (c : Call) (hc : c.hook = "generate_init_module") (y : Payload) : record ps c y = ps := by
+  unfold record
+  split <;> simp_all
+
+theorem record_fields (p1 p2 : PipeState) (c : Call) (y : Payload)
+    (h1 : p1.methodsOut = p2.methodsOut) (h2 : p1.importsOut = p2.importsOut) (h3 : p1.gqlOut = p2.gqlOut)
+    (h4 : p1.classOut = p2.classOut) (h5 : p1.initImports = p2.initImports) :
+    (record p1 c y).plugins = p1.plugins ∧ (record p2 c y).plugins = p2.plugins ∧
+    (record p1 c y).methodsOut = (record p2 c y).methodsOut ∧ (record p1 c y).importsOut = (record p2 c y).importsOut ∧
+    (record p1 c y).gqlOut = (record p2 c y).gqlOut ∧ (record p1 c y).classOut = (record p2 c y).classOut ∧
+    (record p1 c y).initImports = (record p2 c y).initImports := by
+  unfold record
+  split
+  · simp [h1, h2, h3, h4, h5]
+  · rename_i i _
+    by_cases hk : keepClientImport c i = true <;> simp [hk, h1, h2, h3, h4, h5]
+  · simp [h1, h2, h3, h4, h5]
+  · simp [h1, h2, h3, h4, h5]
+  · simp [h1, h2, h3, h4, h5]
+  · simp [h1, h2, h3, h4, h5]
+
+theorem stepEvent_inert (p1 p2 : PipeState) (e : Event) (h : InertRel p1 p2) :
+    ∃ q1 q2, stepEvent p1 e = .ok q1 ∧ stepEvent p2 e = .ok q2 ∧ InertRel q1 q2 := by
+  obtain ⟨hin, hnil, h1, h2, h3, h4, h5, hf⟩ := h
+  have hinput : inputFor p1 e = inputFor p2 e := by unfold inputFor; rw [h1, h2, h3, h4, h5]
+  obtain ⟨y, hy, hy2⟩ := inert_manager e.call p1.plugins hin (inputFor p2 e)
+  unfold stepEvent manager
+  rw [hinput, hnil]
+  dsimp only
+  rw [hy]
+  simp only [bind_ok, pure_eq_ok]
+  have hnilrun : applyAll PState.step e.call [] (inputFor p2 e) = .ok ([], inputFor p2 e) := rfl
+  rw [hnilrun]
+  simp only [bind_ok]
+  refine ⟨_, _, rfl, rfl, ?_⟩
+  by_cases hc : e.call.hook = "generate_init_module"
+  · rw [record_init _ e.call hc, record_init _ e.call hc]
+    refine ⟨hin, rfl, h1, h2, h3, h4, h5, ?_⟩
+    intro hook hh
+    rw [finalOf_eq, finalOf_eq]
+    simp only [finalOfTrace_snoc]
+    have : (e.call.hook == hook) = false := by rw [hc]; simp; exact fun h => hh h.symm
+    simp only [this, Bool.false_eq_true, ↓reduceIte]
+    have := hf hook hh
+    rw [finalOf_eq, finalOf_eq] at this
+    exact this
+  · have hyx := hy2 hc
+    subst hyx
+    obtain ⟨g1, g2, g3, g4, g5, g6, g7⟩ := record_fields
+      { p1 with trace := p1.trace ++ [(e.call, inputFor p2 e, inputFor p2 e)] }
+      { plugins := [], methodsOut := p2.methodsOut, importsOut := p2.importsOut, gqlOut := p2.gqlOut, classOut := p2.classOut,
+        initImports := p2.initImports, trace := p2.trace ++ [(e.call, inputFor p2 e, inputFor p2 e)] }
+      e.call (inputFor p2 e) h1 h2 h3 h4 h5
+    refine ⟨by rw [g1]; exact hin, by rw [g2], g3, g4, g5, g6, g7, ?_⟩
+    intro hook hh
+    rw [record_finalOf, record_finalOf, finalOf_eq, finalOf_eq]
+    simp only [finalOfTrace_snoc]
+    have := hf hook hh
+    rw [finalOf_eq, finalOf_eq] at this
+    rw [this]
+
+theorem runPipeline_inert (evs : List Event) : ∀ (p1 p2 : PipeState), InertRel p1 p2 →
+    (runPipeline p1 evs).2 = (runPipeline p2 evs).2 ∧ InertRel (runPipeline p1 evs).1 (runPipeline p2 evs).1 := by
+  induction evs with
+  | nil => intro p1 p2 h; exact ⟨rfl, h⟩
+  | cons e rest ih =>
+    intro p1 p2 h
+    unfold runPipeline
+    obtain ⟨q1, q2, e1, e2, hq⟩ := stepEvent_inert p1 p2 e h
+    rw [e1, e2]
+    exact ih q1 q2 hq
+
+theorem inert_opsFile (ps : PipeState) (h : Inert ps.plugins) : ps.opsFile? = none := by
+  unfold PipeState.opsFile?
+  rw [List.findSome?_eq_none_iff]
+  intro p hp
+  rcases h p (by simpa using hp) with rfl | rfl <;> rfl
+
+theorem inert_no_kind (ps : List PState) (h : Inert ps) :
+    ps.any PState.isShorter = false ∧ ps.any PState.isExtract = false ∧ ps.any PState.isFwd = false := by
+  refine ⟨?_, ?_, ?_⟩ <;>
+  · rw [List.any_eq_false]
+    intro p hp
+    rcases h p hp with rfl | rfl <;> simp [PState.isShorter, PState.isExtract, PState.isFwd]
+
+theorem outcome_map_id {α} (o : Outcome α) : o.map (fun a => a) = o := by cases o <;> rfl
+
 end Ariadne.C15
